@@ -178,11 +178,15 @@ func (p *FakeProxy) upload(id string, rw http.ResponseWriter, r *http.Request) {
 			}
 		}
 		if err == io.EOF {
+			p.mu.Lock()
 			u.Complete = true
+			p.mu.Unlock()
 			break
 		}
 		if err != nil {
+			p.mu.Lock()
 			u.ReadErr = err.Error()
+			p.mu.Unlock()
 			break
 		}
 	}
@@ -193,6 +197,7 @@ func (p *FakeProxy) upload(id string, rw http.ResponseWriter, r *http.Request) {
 		return
 	}
 	resp, err := http.ReadResponse(bufio.NewReader(bytes.NewReader(body)), nil)
+	p.mu.Lock()
 	if err != nil {
 		u.ParseErr = err.Error()
 	} else {
@@ -200,12 +205,11 @@ func (p *FakeProxy) upload(id string, rw http.ResponseWriter, r *http.Request) {
 		if err != nil {
 			u.ParseErr = "body: " + err.Error()
 		}
-		p.mu.Lock()
 		u.Resp = resp
 		u.RespBody = b
-		p.mu.Unlock()
 	}
 	u.Status = 200
+	p.mu.Unlock()
 	rw.WriteHeader(200)
 }
 
